@@ -16,18 +16,11 @@ package main
 
 import (
 	"fmt"
-	"os"
-	"runtime/debug"
 
 	"verifh/ev"
 )
 
 func main() {
-	// The cases allocate many tiny objects on a tiny live heap; without this
-	// the collector runs continuously and serialises the 16 workers.
-	if os.Getenv("GOGC") == "" {
-		debug.SetGCPercent(2000)
-	}
 	r := ev.Start("C19")
 	r.Rule("trie: vstate, distinct reference contents with >=2 names present; demux-single: cases where >=2 registered prefixes are STRING prefixes of the instance name (longest-component-prefix choice matters); demux-findmissing: digest sets spanning >=2 backends (or mixing known and unknown names); hier-get: >=2 ancestors-or-self hold a copy or the copy is at a proper ancestor; hier-findmissing: chains of different lengths with one digest found at a proper ancestor and one missing everywhere; patcher: old != new and name longer than old")
 	r.Assume("trie: Remove is only called for names currently present (DESIGN 5.6, precondition of the pruning walk); Set is only called with values >= 0 (negative values mean 'absent' inside the trie)")
